@@ -43,6 +43,7 @@ type c01Scenario struct {
 	Batch   int       `json:"batch"`
 	Pol     simPolicy `json:"-"`
 	Parse   bool      `json:"parse_blocks"`
+	SplitPct int      `json:"split_pct"` // chance that a block-processor step is split between pop and ProcessBlock
 	Steps   []c01Step `json:"steps"`
 	PolDesc string    `json:"policy"`
 }
@@ -72,7 +73,8 @@ func c01Generate(r *rand.Rand, long bool) c01Scenario {
 	sc.Batch = 2000
 	sc.Pol = simPolicy{fairness: 1 + r.Intn(30), procPct: []int{0, 20, 50, 90}[r.Intn(4)], permute: r.Intn(2) == 0, dupPct: []int{0, 0, 10}[r.Intn(3)]}
 	sc.Parse = r.Intn(2) == 0
-	sc.PolDesc = fmt.Sprintf("batch=%d fairness=%d procPct=%d permute=%v dupPct=%d", sc.Batch, sc.Pol.fairness, sc.Pol.procPct, sc.Pol.permute, sc.Pol.dupPct)
+	sc.SplitPct = []int{0, 0, 30, 70}[r.Intn(4)]
+	sc.PolDesc = fmt.Sprintf("split=%d batch=%d fairness=%d procPct=%d permute=%v dupPct=%d", sc.SplitPct, sc.Batch, sc.Pol.fairness, sc.Pol.procPct, sc.Pol.permute, sc.Pol.dupPct)
 	nsteps := 2 + r.Intn(7)
 	if r.Intn(3) == 0 {
 		sc.Steps = append(sc.Steps, c01Step{Op: "partial", N: 1 + r.Intn(40)})
@@ -139,6 +141,7 @@ func c01RunHook(r *rand.Rand, sc c01Scenario, probeEvery bool, setup func(*dsSim
 	pol := sc.Pol
 	pol.probeEvery = probeEvery
 	s := newDSSim(e, peer, r, pol)
+	s.splitPct = sc.SplitPct
 	if setup != nil {
 		setup(s)
 	}
@@ -212,6 +215,7 @@ func c01RunHook(r *rand.Rand, sc c01Scenario, probeEvery bool, setup func(*dsSim
 			s.pump(st.N)
 		case "restart":
 			// clean stop: what Run saves at shutdown, then a new node on the same storage
+			s.finishPopped()
 			s.e.node.blocks.Save(s.e.ctx)
 			s.e.node.txs.Save(s.e.ctx)
 			s.e.node.peers.Save(s.e.ctx)
@@ -234,6 +238,7 @@ func c01RunHook(r *rand.Rand, sc c01Scenario, probeEvery bool, setup func(*dsSim
 			s.reconnect()
 		case "shutdown":
 			// what Run saves when it stops
+			s.finishPopped()
 			s.e.node.blocks.Save(s.e.ctx)
 			s.e.node.txs.Save(s.e.ctx)
 			s.e.node.peers.Save(s.e.ctx)
